@@ -29,6 +29,8 @@ def _name(o):
     p.append("elchunk=%s" % (o.get("el_chunk") or "real"))
     p.append("bl=stdin" if o.get("stdin") else "bl=file")
     p.append("kind=" + o["kind"])
+    if o.get("trailing"):
+        p.append("trailing=" + o["trailing"])
     return " ".join(p)
 
 
@@ -124,6 +126,11 @@ def run_job(job):
     if res.crashed():
         return fail("mux", "no crash", res.brief())
     kind = o["kind"]
+    if kind == "bl_trailing":
+        # BL with NALs behind its last slice: outside the access-unit template the reference interleave speaks about; the
+        # Lean model says what the tool does (mux_drops_trailing_nals) and only that is compared
+        out["steps"].append("mux(model only)")
+        return out
     if kind == "el_longer":
         if res.rc == 0:
             return fail("mux", "non-zero exit status (EL has more frames than BL)", "exit status 0")
@@ -183,7 +190,9 @@ def run(ctx):
                 "sizes drawn independently from {64, 257, 4096, 100000}, BL as file or piped stdin; every intermediate file compared as "
                 "(type, payload) sequence with the generator's reference split / interleave; byte identity asserted for the canonical "
                 "form; pairs with EL longer (error status + output trimmed to the BL length) and EL shorter (no crash, BL conserved); "
-                "non-trivial = completed chain on >= 2 frames; distinct by (stream, options)")
+                "non-trivial = completed chain on >= 2 frames; distinct by (stream, options); about 1 case in 12 is a pair whose BL "
+                "carries NALs behind its last slice (an AUD / an AUD + prefix SEI / VPS SPS PPS, which hevc_parser labels with the "
+                "frame count): compared with the Lean model only (the tool drops them and the last EL frame)")
     ctx.assumptions = ["every EL frame holds at least one slice with first_slice_segment_in_pic_flag (an EL frame consisting of an RPU only "
                        "cannot be delimited by any parser of the demuxed EL file; frames without EL video NALs are covered by C05's demux)",
                        "RPUs used with -m are ones the library can convert (a failing conversion inside mux is an unwrap panic, recorded "
@@ -202,6 +211,7 @@ def run(ctx):
     n_pair = 150 if quick else 1000
     n_len = 150 if quick else 1000
     n_big = 3 if quick else 30
+    n_trail = (n_chain + n_pair + n_len) // 11      # about 1 case in 12 of the run
 
     def mk_stream(r, nfr, **kw):
         pb = r.choice([4, 8, 8, 16])
@@ -375,6 +385,31 @@ def run(ctx):
         job["exp_bl_only"] = exp_bl
         jobs.append(job)
 
+    # ---- BL with NALs behind its last slice (model correspondence only)
+    for i in range(n_trail):
+        r = rng.fork("trail%d" % i)
+        nfr = r.choice([1, 2, 3, 5, 8, 13])
+        st, so = mk_stream(r, nfr)
+        bl_n, el_n = H.split_layers(st)
+        tk = r.choice(M.TRAILING_KINDS)
+        trail = M.gen_trailing(r, st.codec, tk, st.specs[-1].stype, {"four": 4, "three": 3}.get(so["sc"]))
+        if sum(n.size() for n in bl_n + trail) > REAL_CHUNK - 5000:
+            continue
+        o = mux_opts(r)
+        o["kind"] = "bl_trailing"
+        o["trailing"] = tk
+        bl_aus = [(s_, tuples(nl)) for s_, nl in H.bl_aus_of(st)]
+        el_frames = [tuples(fr) for fr in H.el_frames_of(st)]
+        key = F.rpu_key(o.get("mode"))
+        conv.ensure([(key, d) for fr in el_frames for t, d in fr if t == H.UNSPEC62])
+        job = {"bl": H.render(bl_n + trail), "el": H.render(el_n), "sid": 4000 + i, "st": st, "so": so, "opt": o, "check_sc": True}
+        job["mline_mux"] = M.mux_line(bl_aus, el_frames, conv, key=key, no_add_aud=o.get("no_add_aud", False),
+                                      eos_before_el=o.get("eos_before_el", False), discard=o.get("discard", False),
+                                      start_code=o.get("start_code"), bl_trailing=trail)
+        if o.get("stdin"):
+            o["frag"], o["pieces"] = R.fragmentation(r.fork("frag"), len(job["bl"]), o.get("chunk"))
+        jobs.append(job)
+
     with R.Work("C06") as work:
         for j in jobs:
             j["work"] = work
@@ -382,7 +417,7 @@ def run(ctx):
         for j in jobs:
             # third step: demux of what the model says mux writes (labels as in the reference: no frame labels needed)
             exp, err = M.parse_list(j["model_mux"])
-            if exp is not None and not err and j["opt"]["kind"] not in ("el_longer", "el_shorter"):
+            if exp is not None and not err and j["opt"]["kind"] not in ("el_longer", "el_shorter", "bl_trailing"):
                 j["mline_back"] = M.general_line("demux", [(t, d, 0) for t, d, _ in exp], conv)
         n_model += M.attach(jobs, "mline_back", "model_back")
         ctx.count("cases through the Lean model (hevc.mux / hevc.general demux)", n_model)
@@ -414,8 +449,11 @@ def run(ctx):
                 ctx.count("bl-carries-own-rpus")
             if o["kind"] in ("el_longer", "el_shorter"):
                 ctx.count("%s mux_rc=%s" % (o["kind"], o_.get("mux_rc")))
+            if o["kind"] == "bl_trailing":
+                ctx.count("BL NALs behind the last slice (model correspondence only)")
+                ctx.count("bl_trailing=%s%s mux_rc=%s" % (o["trailing"], " no_add_aud" if o.get("no_add_aud") else "", o_.get("mux_rc")))
             ctx.count("outcome=" + ("FAIL" if o_["fail"] else "ok"))
-            if not o_["fail"] and len(st.aus) >= 2:
+            if not o_["fail"] and len(st.aus) >= 2 and o["kind"] != "bl_trailing":
                 ctx.nontriv("%d/%s" % (j["sid"], _name(o)))
             if k % 53 == 0:
                 ctx.sample("stream#%d (%d frames): %s -> %s" % (j["sid"], len(st.aus), " && ".join(c.replace(work.dir, "$W") for c in o_["cmds"]),
